@@ -64,7 +64,7 @@ def u_reseed(ctx, has_w, has_z):
     expect_no_exception(ctx, call(g, n1), "C16/BoxRandoms.__call__")
     old_rng = g.rng
     expect_no_exception(ctx, call(g.reseed), name)
-    ctx.check(f"{name}/post:state_reset_to_function_of_seed", g.rng.hist.eq(h0) and g.seed is seed or bool(g.seed == seed),
+    ctx.check(f"{name}/post:state_reset_to_function_of_seed", g.rng.hist.eq(h0) and (g.seed is seed or bool(g.seed == seed)),
               detail="a generator must reproduce identical points no matter how often it has been used before")
     s2 = ctx.fresh_int("seed2", lo=0)
     expect_no_exception(ctx, call(g.reseed, s2), name)
